@@ -27,6 +27,7 @@ EXPLANATION += ' R13.16: in the auto-import observer every per-file index update
 EXPLANATION += " R13.17: a table of an object whose entries are computed from another table of the object is dropped, entry by entry, wherever the source table changes."
 EXPLANATION += " R13.18: a concluded-data cell is put on the list the reset iterates whatever it holds (never conditional on the truth value of the data)."
 EXPLANATION += " R13.19: the module stored in the module cache is constructed from the resource alone (no source text handed to the constructor)."
+EXPLANATION += " R13.20: a resource operation whose file-system command is `write` -- which creates the file when it is not there -- reports `created` on the paths on which the file did not exist before the write (the existence test is evaluated before the write)."
 ASSUMPTIONS = ["required event sets per cache are a hand-confirmed table (sa/rules/c13.py REQUIRED) with reasons"]
 
 MUTATOR_KIND = {"write": "changed", "move": "moved", "remove": "removed", "create_file": "created",
@@ -78,6 +79,7 @@ def check(ctx, res) -> None:
     _index_only_modules_rule(ctx, res)
     _cell_registration_rule(ctx, res)
     _cached_module_is_read_from_its_file_rule(ctx, res)
+    _write_that_creates_rule(ctx, res)
     from .common import derived_table_rule as _dt
 
     _dt(ctx, res, "R13.17", ('rope.base.pycore', 'rope.base.project', 'rope.base.resourceobserver', 'rope.base.pyobjects', 'rope.base.pynames', 'rope.contrib.autoimport.sqlite', 'rope.base.oi.objectinfo', 'rope.base.oi.memorydb'))
@@ -919,12 +921,14 @@ def no_negative_cache_rule(ctx, res, rule: str) -> None:
         if not handlers:
             continue
         cfg = CFG(f.node)
-        setters = [nd for nd in cfg.nodes if nd.kind in ("stmt", "test") and nd.ast is not None and any(
+        cell_sets = [nd for nd in cfg.nodes if nd.kind in ("stmt", "test") and nd.ast is not None and any(
             isinstance(c.func, ast.Attribute) and c.func.attr == "set" and is_self_attr(c.func.value) for c in calls_in(nd.ast))]
-        if not setters:
+        if not cell_sets:
             continue
-        # ... and stores into attributes of the object itself (a flag "not found" kept next to the cell)
-        setters += [nd for nd in cfg.nodes if nd.kind == "stmt" and isinstance(nd.ast, (ast.Assign, ast.AugAssign, ast.AnnAssign)) and any(
+        # Since the repair behind R13.15 the concluded-data CELLS are reset when a file is created, moved or removed anywhere in the
+        # project: a miss remembered IN THE CELL is dropped when the module appears, and is no longer a finding (the seed that did
+        # this, C13-d, became harmless and was retired).  What nothing resets is a plain attribute of the name object.
+        setters = [nd for nd in cfg.nodes if nd.kind == "stmt" and isinstance(nd.ast, (ast.Assign, ast.AugAssign, ast.AnnAssign)) and any(
             is_self_attr(t) for t in (nd.ast.targets if isinstance(nd.ast, ast.Assign) else [nd.ast.target]))]
         for h in handlers:
             n138 += 1
@@ -968,3 +972,82 @@ def _cached_module_is_read_from_its_file_rule(ctx, res) -> None:
                 "not there yet) is dropped only by changed / moved / removed events -- when the file comes into being (a rename onto the path, undo of a rename, an external "
                 "restore) the observer reports `created`, nothing drops the entry, and the warm project answers with the empty module for good", function=gp.qualname)
     res.floor("R13.19", "module constructions stored in the module cache", n, 1)
+
+
+def _write_that_creates_rule(ctx, res) -> None:
+    """R13.20: `fscommands.write(path, data)` opens the path for writing: it CREATES the file when it is not there.  The undo of a change
+    to a file that was meanwhile removed outside rope (and the redo, and a change rebuilt from the saved history) arrives at
+    `_ResourceOperations.write_file` for a file that does not exist.  The set of files of the project then grows, and the caches that
+    answer "which files are there" (the file list, the structure observer behind concluded data) listen to `created`, not to `changed`
+    of a file.  So: in every resource operation that writes, a `resource_created(<the resource>)` notification stands after the write,
+    under nothing but a test that the resource did NOT exist -- a test evaluated BEFORE the write (afterwards it always exists) -- or
+    under no test at all."""
+    idx = ctx.idx
+    ops = idx.need_class("rope.base.change._ResourceOperations")
+    n = 0
+    for name, m in sorted(ops.methods.items()):
+        if name.startswith("_"):
+            continue
+        mnode = common.inline_private_calls(idx, m, keep=tuple(k for k in ops.methods if "fscommands" in k))
+        writes = [c for c in calls_in(mnode) if isinstance(c.func, ast.Attribute) and c.func.attr == "write"
+                  and "commands" in ast.unparse(c.func.value)]
+        if not writes:
+            continue
+        params = m.call_params()
+        if not params:
+            continue
+        r0 = params[0]
+        cfg = CFG(mnode)
+        for w in writes:
+            n += 1
+            wn = cfg.node_containing(w)
+            if not wn:
+                raise AnalysisError(f"R13.20: the write call of _ResourceOperations.{name} has no CFG node")
+            wn = wn[0]
+            wguards = {(ast.unparse(t), pol) for t, pol in cfg.guards(wn.id)}
+
+            def is_exists(t) -> bool:
+                return isinstance(t, ast.Call) and isinstance(t.func, ast.Attribute) and t.func.attr == "exists" \
+                    and isinstance(t.func.value, ast.Name) and t.func.value.id == r0 and not t.args
+
+            bad = "no path after the write reports resource_created"
+            for lp in cfg.nodes:
+                if lp.kind != "loop" or not _is_observer_loop(lp.ast) or not cfg.exists_path(wn.id, lp.id):
+                    continue
+                c = _notify_kinds(lp.ast).get("created")
+                if c is None or [a.id for a in c.args if isinstance(a, ast.Name)] != [r0]:
+                    continue
+                cn = cfg.node_containing(c)
+                if not cn:
+                    continue
+                gs = [(t, pol) for t, pol in cfg.guards(cn[0].id) if (ast.unparse(t), pol) not in wguards]
+                tests = [(t, pol) for t, pol in gs if is_exists(t)]
+                others = [(t, pol) for t, pol in gs if not is_exists(t) and not cfg.is_named_condition(t)]
+                if others:
+                    bad = f"resource_created is reported only under `{ast.unparse(others[0][0])}`"
+                    continue
+                if any(pol for _, pol in tests):
+                    bad = "resource_created is reported when the file DID exist"
+                    continue
+                def evaluated_at(t):
+                    # a test that is the definition of a named condition (`created = not r.exists()` ... `if created:`) is
+                    # evaluated where the name is bound, not where the name is tested
+                    ns = cfg.node_containing(t)
+                    return [x for x in ns if x.kind == "cond"] or ns
+
+                late = [t for t, _ in tests if any(cfg.exists_path(wn.id, x.id) for x in evaluated_at(t))]
+                if late:
+                    bad = "the existence test is evaluated after the write, when the file always exists"
+                    continue
+                if not tests and gs:
+                    bad = f"resource_created stands under `{ast.unparse(gs[0][0])}`, which is not a test that the file did not exist"
+                    continue
+                bad = None
+                break
+            res.add("R13.20", f"_ResourceOperations.{name}|a-write-that-creates-reports-created#{n}", bad is None, f"{m.unit.rel}:{w.lineno}",
+                    "the write reports `created` on the paths on which the file did not exist before it" if bad is None else
+                    f"_ResourceOperations.{name}: {bad}.  `write` creates the file when it is not there (undo / redo of a change to a file that was "
+                    "removed outside rope; a change rebuilt from the saved history): the project then has one more file, but the observers hear "
+                    "`changed` only -- the file list and the structure observer keep answering without the file (a rename misses it silently)",
+                    function=m.qualname)
+    res.floor("R13.20", "writing resource operations", n, 1)
